@@ -28,5 +28,9 @@ Sh(B, n) ==
   ELSE {Wrap(e) : e \in Sh(B, n - 1)}
        \cup UNION {{Assn(p, o) : p \in Sh(B, i), o \in Sh(B, n - 1 - i)} : i \in 1..(n - 2)}
        \cup (IF n >= 5 THEN NodesOf(B, n) ELSE {})
+\* nodes whose subject is itself a node (reachable through the decoder and through
+\* decrypt_subject; the replayer assembles them by hiding the subject while adding)
+NodeSubjectNodes(B, n) ==
+  {Node(s, {a}) : s \in {x \in ShUpTo(B, n - 4) : IsNode(x)}, a \in AL(B, 3)}
 ShUpTo(B, n) == IF n = 0 THEN {} ELSE Sh(B, n) \cup ShUpTo(B, n - 1)
 =============================================================================
